@@ -138,9 +138,26 @@ theorem cycle_main (cfg : Cfg) (P : Store) (now now1 : Tick) (exec : Id → Nat 
 
 theorem cycle_not_handler_reason (cfg : Cfg) (P : Store) (now now1 : Tick) (exec : Id → Nat → Outcome)
     (hr : handlerReasons.contains cfg.reason = false) :
-    cycle cfg P now now1 exec = { invoked := [], P' := P, closed := false, delays := [] } := by
+    cycle cfg P now now1 exec =
+      { invoked := [],
+        P' := if cfg.reason == "noop" then purge P (fromStorage P cfg.owned) cfg.owned cfg.owned else P,
+        closed := false, delays := [] } := by
   unfold cycle
   simp only [hr, Bool.not_false, if_true]
+
+/-- For an informational cause nothing is invoked, whatever the stored records are. -/
+theorem cycle_not_handler_reason_invoked (cfg : Cfg) (P : Store) (now now1 : Tick) (exec : Id → Nat → Outcome)
+    (hr : handlerReasons.contains cfg.reason = false) :
+    (cycle cfg P now now1 exec).invoked = [] ∧ (cycle cfg P now now1 exec).closed = false := by
+  rw [cycle_not_handler_reason cfg P now now1 exec hr]
+  exact ⟨rfl, rfl⟩
+
+/-- Informational causes other than the no-op leave the records alone. -/
+theorem cycle_not_handler_reason_keeps (cfg : Cfg) (P : Store) (now now1 : Tick) (exec : Id → Nat → Outcome)
+    (hr : handlerReasons.contains cfg.reason = false) (hn : (cfg.reason == "noop") = false) :
+    (cycle cfg P now now1 exec).P' = P := by
+  rw [cycle_not_handler_reason cfg P now now1 exec hr]
+  simp [hn]
 
 theorem cycle_no_handlers (cfg : Cfg) (P : Store) (now now1 : Tick) (exec : Id → Nat → Outcome)
     (hr : handlerReasons.contains cfg.reason = true) (he : cfg.selected.isEmpty = true) :
